@@ -506,6 +506,21 @@ fn load_cases<X: Clone + PartialEq + std::fmt::Debug + 'static>(cx: &mut Ctx, rn
         vec![0x82, 0x00, 0x85, 0x00],
         vec![0xfe, 0x7f, 0x01, 0x02],
     ];
+    // an untrusted value LENGTH prefix at the top of the u64 range (string / byte columns read it as a length;
+    // for numeric columns the same bytes are an ordinary huge value or an error): literal and repeat position
+    for k in [0u64, 1, 2, 5, 9, 10, 11, 100] {
+        for big in [u64::MAX - k, (1u64 << 63) + k, (1u64 << 63) - 1 - k, (1u64 << 32) + k] {
+            let mut p = vec![0x7f];
+            uleb(&mut p, big);
+            probes.push(p.clone());
+            p.extend([0x61, 0x62, 0x63]);
+            probes.push(p);
+            let mut p = vec![0x02];
+            uleb(&mut p, big);
+            p.extend([0x61; 12]);
+            probes.push(p);
+        }
+    }
     // item-count overflow: two maximal runs and one more; null run of u64::MAX and a run
     let a = (ops.gen)(rng);
     let mut b = (ops.gen)(rng);
@@ -764,6 +779,66 @@ fn bool_cases(cx: &mut Ctx, rng: &mut Rng, n_save: usize, n_direct: usize, n_loa
                 bool_load_case(cx, &b, "structured");
             }
         }
+    }
+}
+
+/// long runs joined across slab boundaries: true x a, separator, true x b, separator, true x c with the
+/// separators deleted afterwards (the writer has to merge run counts across three slabs; the merged
+/// count crosses a varint width boundary for most choices) — direct save -> load -> compare
+fn bool_merge_cases(cx: &mut Ctx, rng: &mut Rng, n: usize) {
+    for _ in 0..n {
+        let segs = *rng.pick(&[2usize, 4, 8, 16, 64]);
+        let first = rng.chance(3, 4);
+        let parts: Vec<usize> = (0..rng.range(2, 4)).map(|_| rng.range(1, 200) as usize).collect();
+        let sep = rng.range(1, 6) as usize;
+        let mut vals: Vec<bool> = vec![];
+        let mut seps: Vec<usize> = vec![];
+        for (i, p) in parts.iter().enumerate() {
+            if i > 0 {
+                seps.push(vals.len());
+                vals.extend(std::iter::repeat(!first).take(sep));
+            }
+            vals.extend(std::iter::repeat(first).take(*p));
+        }
+        let mut fin = vals.clone();
+        for at in seps.iter().rev() {
+            fin.drain(*at..*at + sep);
+        }
+        let replay = json!({"kind": "save-bool-merge", "max_segments": segs, "first": first, "parts": parts, "separator": sep});
+        let r = guard(|| {
+            let mut col = Column::<bool>::with_max_segments(segs);
+            col.splice(0, 0, vals.clone());
+            for at in seps.iter().rev() {
+                col.splice(*at, sep, Vec::<bool>::new());
+            }
+            let mem: Vec<bool> = col.iter().collect();
+            (mem, col.save())
+        });
+        match r {
+            Err(p) => cx.rep.fail(&["C35", "C34"], &format!("hexenc|panic|build-bool|{}", p.signature()), &format!("building / saving a bool column panicked: {}", p.message), replay),
+            Ok((mem, wire)) => {
+                if mem != fin {
+                    cx.rep.fail(&["C34"], "hexenc|edit-differs|bool", "bool column: contents after splices differ from the Vec", replay.clone());
+                }
+                match guard(|| bool_load(&wire)) {
+                    Ok(Ok((len, runs, _))) => {
+                        let mut ex = vec![];
+                        for (c, v) in &runs {
+                            for _ in 0..(*c).min(100_000) {
+                                ex.push(*v);
+                            }
+                        }
+                        if ex != fin || len != fin.len() as u128 {
+                            cx.rep.fail(&["C35"], "hexenc|roundtrip-differs|bool", "bool column: load(save(col)) holds different values (runs merged across slabs)", replay);
+                        }
+                    }
+                    Ok(Err(())) => cx.rep.fail(&["C35"], "hexenc|roundtrip-rejected|bool", "bool column: load rejects the bytes save produced", replay),
+                    Err(p) => cx.rep.fail(&["C35", "C15"], &format!("hexenc|panic|load-own-bool|{}", p.signature()), &format!("loading a saved bool column panicked: {}", p.message), replay),
+                }
+            }
+        }
+        cx.rep.case(Some(fnv(format!("{:?}{}{}", parts, sep, segs).as_bytes())));
+        cx.rep.count("save_bool_merge");
     }
 }
 
@@ -1123,6 +1198,7 @@ pub fn run(rng: &mut Rng, tier: &str, out: &str) -> Report {
         }
         // a string column must reject what a byte column accepts when it is not UTF-8
         bool_cases(&mut cx, rng, n_save * 2, n_direct, n_load);
+        bool_merge_cases(&mut cx, rng, if thorough { 3000 } else { 400 });
         let di = DeltaOps { name: "i64", nullable: false, lo: i64::MIN as i128, hi: i64::MAX as i128, build: dbuild_i64, load: dload_i64, vals: dvals_i64 };
         let du = DeltaOps { name: "u64", nullable: false, lo: 0, hi: i64::MAX as i128, build: dbuild_u64, load: dload_u64, vals: dvals_u64 };
         let doi = DeltaOps { name: "opt-i64", nullable: true, lo: i64::MIN as i128, hi: i64::MAX as i128, build: dbuild_oi64, load: dload_oi64, vals: dvals_oi64 };
